@@ -679,7 +679,10 @@ impl IoLoop {
         // The connection timeout bounds this whole phase (the handshake): a peer that keeps
         // the socket busy without ever getting anywhere - heartbeats but no OpenOk - must
         // not keep us here for ever, and neither must our own timers waking us up.
-        let deadline = self.connection_timeout.map(|timeout| Instant::now() + timeout);
+        // (a timeout too large to be added to the clock is no deadline at all)
+        let deadline = self
+            .connection_timeout
+            .and_then(|timeout| Instant::now().checked_add(timeout));
         loop {
             let poll_timeout = match deadline {
                 Some(deadline) => match deadline.checked_duration_since(Instant::now()) {
